@@ -179,3 +179,101 @@ def run_editions(payload):
             o["raised"] = f"{type(ex).__name__}: {ex}"
         res.append(o)
     return res
+
+
+def db_strings(payload):
+    """Ground truth read DIRECTLY from reporters-db (not through eyecite): for every reporter
+    string (edition name or variation) the set of editions it denotes, exact names first."""
+    from reporters_db import REPORTERS
+    exact, var = {}, {}
+    multi_tpl = set()
+    for key, cluster in REPORTERS.items():
+        for ri, src in enumerate(cluster):
+            for ename, edata in src["editions"].items():
+                eid = f"{key}#{ri}#{ename}"
+                exact.setdefault(ename, set()).add(eid)
+                if len(edata.get("regexes") or []) > 1:
+                    multi_tpl.add(eid)
+            for v, target in src["variations"].items():
+                if target in src["editions"]:
+                    var.setdefault(v, set()).add(f"{key}#{ri}#{target}")
+    out = []
+    for s in sorted(set(exact) | set(var)):
+        cands = exact.get(s) or var.get(s)
+        eds = sorted(cands)
+        out.append({"string": s, "is_exact": s in exact, "editions": eds,
+                    "canon": eds[0].split("#", 2)[2] if len(eds) == 1 else None})
+    years = {}
+    for key, cluster in REPORTERS.items():
+        for ri, src in enumerate(cluster):
+            for ename, edata in src["editions"].items():
+                years[f"{key}#{ri}#{ename}"] = [edata["start"].year if edata["start"] else None,
+                                                edata["end"].year if edata["end"] else None]
+    return {"strings": out, "years": years}
+
+
+def run_equality(payload):
+    """items: groups; each group is a list of {text, cls, key} (key = ground-truth identity written
+    by the generator, or null for 'equal only to itself').  Extracts the first citation of class
+    cls from each text and compares all pairs with ==, hash() and Resource()."""
+    from eyecite import get_citations
+    from eyecite.models import Resource
+    res = []
+    for group in payload["items"]:
+        objs, rows = [], []
+        for it in group["members"]:
+            try:
+                cs = [c for c in get_citations(it["text"]) if type(c).__name__ == it["cls"]]
+            except Exception as ex:  # noqa: BLE001
+                cs = []
+            c = cs[it.get("nth", 0)] if len(cs) > it.get("nth", 0) else None
+            ok = c is not None and (it.get("want") is None or all(
+                (c.groups.get(k) or "") == v for k, v in it["want"].items()))
+            key = it["key"]
+            if key == "@groups" and c is not None:
+                # pools of database examples: the written identity is read off the extracted groups
+                key = f"{c.groups.get('volume')}|{c.groups.get('page')}|{c.corrected_reporter()}"
+                if c.groups.get("page") is None:
+                    it = dict(it, selfonly=True)
+            rows.append({"text": it["text"], "cls": it["cls"], "key": key, "selfonly": it.get("selfonly", False),
+                         "found": bool(ok), "same_as": it.get("same_as", 0)})
+            objs.append(c if ok else None)
+        n = len(objs)
+        eq = [[False] * n for _ in range(n)]
+        heq = [[False] * n for _ in range(n)]
+        req = [[False] * n for _ in range(n)]
+        raised = ""
+        rt = []
+        try:
+            for i in range(n):
+                for j in range(n):
+                    if objs[i] is None or objs[j] is None:
+                        continue
+                    eq[i][j] = bool(objs[i] == objs[j])
+                    heq[i][j] = hash(objs[i]) == hash(objs[j])
+                    if hasattr(objs[i], "exact_editions") and hasattr(objs[j], "exact_editions"):
+                        req[i][j] = Resource(objs[i]) == Resource(objs[j]) and hash(Resource(objs[i])) == hash(Resource(objs[j]))
+                    else:
+                        req[i][j] = eq[i][j]
+            for i, it in enumerate(group["members"]):
+                r = {"checked": False, "one": True, "equal": True, "fixed": True}
+                if it.get("roundtrip") and objs[i] is not None:
+                    cc = objs[i].corrected_citation()
+                    back = [c for c in get_citations(cc) if type(c).__name__ == it["cls"]]
+                    r = {"checked": True, "one": len(back) == 1, "equal": len(back) == 1 and back[0] == objs[i],
+                         "fixed": len(back) == 1 and back[0].corrected_citation() == cc, "cc": cc}
+                rt.append(r)
+        except Exception as ex:  # noqa: BLE001
+            raised = f"{type(ex).__name__}: {ex}"
+        res.append({"rows": rows, "eq": eq, "heq": heq, "req": req, "rt": rt, "raised": raised, "label": group.get("label", "")})
+    return res
+
+
+def db_examples(payload):
+    from reporters_db import JOURNALS, LAWS, REPORTERS
+    out = {"reporters": [], "laws": [], "journals": []}
+    for name, db in (("reporters", REPORTERS), ("laws", LAWS), ("journals", JOURNALS)):
+        for key, cluster in db.items():
+            for src in cluster:
+                out[name] += list(src.get("examples") or [])
+    return out
